@@ -48,6 +48,7 @@ import zlib
 from asyncio import events
 
 LATENCY = 0.001  # virtual seconds that pass when select() blocks until a datagram arrives
+STUTTER_AFTER = 20  # consecutive select(0) calls tolerated before the clock is nudged
 
 
 class _Selector:
@@ -91,7 +92,9 @@ class VLoop(asyncio.BaseEventLoop):
         self._selector = _Selector(self)
         self.poll = None  # callable(timeout) -> list of zero-argument callbacks
         self.iterations = 0
-        self.stop_reason = None  # "quiescent" | "iterations" | "time"
+        self.stop_reason = None  # "quiescent" | "iterations" | "time" | "spin"
+        self._zero_run = 0  # consecutive select(0) calls
+        self.stutters = 0  # iterations in which the stutter guard moved the clock
         self.exc_log = []  # normalised records of every call to the exception handler
         self.set_exception_handler(VLoop._record_exception)
 
@@ -124,6 +127,23 @@ class VLoop(asyncio.BaseEventLoop):
         if self.max_time is not None and self._vtime >= self.max_time:
             self._halt("time")
             return []
+        # Stutter guard.  On a real loop every iteration takes some time, so a timer whose
+        # deadline equals "now" up to float rounding (e.g. loss_time = sent + delay, tested as
+        # sent <= now - delay) is overdue for good a few nanoseconds later.  Virtual time
+        # stands still during select(0); after STUTTER_AFTER consecutive select(0) calls the
+        # clock is nudged by 1 ns, 2 ns, 4 ns, ...  If a full millisecond of nudging does not
+        # end the run of zero timeouts the loop is really spinning: stop with "spin".
+        if timeout == 0:
+            self._zero_run += 1
+            k = self._zero_run - STUTTER_AFTER
+            if k > 0:
+                if k > 21:
+                    self._halt("spin")
+                    return []
+                self.stutters += 1
+                self._vtime += 1e-9 * (1 << (k - 1))
+        else:
+            self._zero_run = 0
         if self.poll is not None:
             return self.poll(timeout)
         if timeout is None:
